@@ -4,7 +4,7 @@
 //! implementation's observations by the oracle below.
 use flute::core::lct::push_lct_header;
 use flute::core::{alc, Oti, UDPEndpoint};
-use flute::sender::{Config, ObjectDesc, Sender, TOIMaxLength, Toi, TransferConfig};
+use flute::sender::{CarouselRepeatMode, Config, ObjectDesc, Sender, TOIMaxLength, Toi, TransferConfig};
 use harness_core::{guarded, hex, Ctx, Engine, Oracle, Rng};
 use std::collections::{BTreeMap, BTreeSet};
 use std::panic::AssertUnwindSafe;
@@ -97,6 +97,8 @@ pub struct Session {
     tainted: std::cell::Cell<bool>,
     /// TOIs of live objects that carry a handle of another sender (accepted by add_object)
     foreign: BTreeSet<u128>,
+    /// names of objects added with a carousel mode
+    carousel: BTreeSet<u64>,
     /// number of live TOIs, published before every call that may not return
     live_count: Arc<AtomicU64>,
 }
@@ -107,6 +109,7 @@ impl Session {
             live_count,
             tainted: std::cell::Cell::new(false),
             foreign: BTreeSet::new(),
+            carousel: BTreeSet::new(),
             sender: None,
             bits: 16,
             tsi: 0,
@@ -209,6 +212,11 @@ impl Session {
     }
 
     fn object(&self, fail: bool, toi: Option<Box<Toi>>) -> Box<ObjectDesc> {
+        self.object_c(fail, toi, false)
+    }
+
+    /// `carousel`: the object is never "expired": after each transfer it goes back to the queue and keeps its TOI
+    fn object_c(&self, fail: bool, toi: Option<Box<Toi>>, carousel: bool) -> Box<ObjectDesc> {
         let (len, oti) = if fail {
             // 4*2*255 = 2040 bytes is the longest object RS(4,2,1) can carry: FileDesc::new refuses
             (2041, Some(Oti::new_reed_solomon_rs28(4, 2, 1).unwrap()))
@@ -223,6 +231,11 @@ impl Session {
             TransferConfig {
                 oti,
                 toi,
+                carousel_mode: if carousel {
+                    Some(CarouselRepeatMode::DelayBetweenTransfers(Duration::from_secs(1_000_000)))
+                } else {
+                    None
+                },
                 // never eligible by itself: `start` triggers the transfer explicitly
                 transfer_start_time: Some(now() + Duration::from_secs(100_000_000)),
                 ..Default::default()
@@ -252,9 +265,16 @@ impl Session {
     }
 
     fn add(&mut self, k: u64, fail: bool, toi: Option<Box<Toi>>, o: &mut Oracle) -> String {
+        self.add_c(k, fail, toi, false, o)
+    }
+
+    fn add_c(&mut self, k: u64, fail: bool, toi: Option<Box<Toi>>, carousel: bool, o: &mut Oracle) -> String {
         let explicit = toi.as_ref().map(|t| t.get());
         let live = self.live();
-        let obj = self.object(fail, toi);
+        let obj = self.object_c(fail, toi, carousel);
+        if carousel {
+            self.carousel.insert(k);
+        }
         let sender = self.sender.as_mut().unwrap();
         match guarded(AssertUnwindSafe(|| sender.add_object(0, obj))) {
             Err(loc) => {
@@ -551,6 +571,34 @@ impl Session {
                 };
                 self.add(k, t[1] == "addfail", None, o)
             }
+            ("addc", 3) => {
+                let k = match num(2) {
+                    Some(k) if !self.objs.contains_key(&k) => k,
+                    _ => return "bad-op".to_string(),
+                };
+                self.add_c(k, false, None, true, o)
+            }
+            ("addnoq", 3) => {
+                // refused before any allocation: priority queue 7 does not exist
+                let k = match num(2) {
+                    Some(k) if !self.objs.contains_key(&k) => k,
+                    _ => return "bad-op".to_string(),
+                };
+                let obj = self.object(false, None);
+                let sender = self.sender.as_mut().unwrap();
+                match guarded(AssertUnwindSafe(|| sender.add_object(7, obj))) {
+                    Ok(Err(_)) => "ERR".to_string(),
+                    Ok(Ok(v)) => {
+                        self.objs.insert(k, v);
+                        format!("toi {}", v)
+                    }
+                    Err(_) => {
+                        self.dead = true;
+                        self.leak();
+                        "PANIC".to_string()
+                    }
+                }
+            }
             ("addforeign", 4) => {
                 // a `Toi` handle reserved on ANOTHER sender (same configuration, start value v) is attached
                 // to an object that is added to THIS sender.  The type system allows it; the handle's value
@@ -655,7 +703,10 @@ impl Session {
                 seen.sort();
                 seen.dedup();
                 if let Some(k) = self.cur.take() {
-                    self.objs.remove(&k);
+                    // a carousel object that is still in the FDT goes back to the queue and stays live
+                    if !(self.cur_in_fdt && self.carousel.contains(&k)) {
+                        self.objs.remove(&k);
+                    }
                     self.cur_in_fdt = false;
                 }
                 if seen.is_empty() {
@@ -995,6 +1046,9 @@ fn sequence(ctx: &mut Ctx, eng: &mut dyn Engine, rng: &mut Rng, bits: u32, init:
     let mut next_name = 1u64;
     let mut kinds = BTreeSet::new();
     let mut allocs = 0;
+    let mut carousel: BTreeSet<u64> = BTreeSet::new();
+    let mut recent: Vec<u128> = Vec::new(); // TOIs returned lately (many still live)
+    let mut last_toi: u128 = 0;
     let mut total_allocated: u64 = 0; // incl. churn: after 2^bits - 1 every allocation is a re-allocation
     for _ in 0..nops {
         let r = rng.below(100);
@@ -1018,6 +1072,10 @@ fn sequence(ctx: &mut Ctx, eng: &mut dyn Engine, rng: &mut Rng, bits: u32, init:
             next_name += 1;
             if rng.chance(1, 6) {
                 format!("toi addfail {}", k)
+            } else if rng.chance(1, 4) {
+                objs.push(k);
+                carousel.insert(k);
+                format!("toi addc {}", k)
             } else {
                 objs.push(k);
                 format!("toi add {}", k)
@@ -1046,10 +1104,31 @@ fn sequence(ctx: &mut Ctx, eng: &mut dyn Engine, rng: &mut Rng, bits: u32, init:
             format!("toi start {}", k)
         } else if r < 90 && cur.is_some() {
             let k = cur.take().unwrap();
-            objs.retain(|x| *x != k);
+            // a carousel object that was not removed meanwhile survives its transfer (can be started again)
+            if !(carousel.contains(&k) && objs.contains(&k)) {
+                objs.retain(|x| *x != k);
+            } else {
+                ctx.count("transfer-ends-object-stays-live(carousel)");
+            }
             "toi drain".to_string()
-        } else if r < 94 {
+        } else if r < 93 {
             "toi fdt".to_string()
+        } else if r < 94 {
+            let k = next_name;
+            next_name += 1;
+            if rng.chance(1, 3) {
+                format!("toi addnoq {}", k)
+            } else {
+                // a handle of another sender whose value is live here / is the next candidate here / anything
+                let m: u128 = (1u128 << bits) - 1;
+                let v = match rng.below(4) {
+                    0 if !recent.is_empty() => *rng.pick(&recent),
+                    1 => (last_toi & m) + 1,
+                    2 => 1,
+                    _ => rng.u128() & m,
+                };
+                format!("toi addforeign {} {}", k, v)
+            }
         } else if r < 96 && cur.is_none() {
             format!("toi freerun {}", rng.range(1, 7))
         } else if bits == 16 && rng.chance(1, 3) {
@@ -1062,6 +1141,13 @@ fn sequence(ctx: &mut Ctx, eng: &mut dyn Engine, rng: &mut Rng, bits: u32, init:
         let kind = op.split(' ').nth(1).unwrap_or("").to_string();
         ctx.count(&format!("op={}", kind));
         kinds.insert(kind);
+        if let Some(v) = obs.strip_prefix("toi ").and_then(|x| x.parse::<u128>().ok()) {
+            last_toi = v;
+            recent.push(v);
+            if recent.len() > 12 {
+                recent.remove(0);
+            }
+        }
         if obs.starts_with("toi ") && !op.starts_with("toi addx") {
             allocs += 1;
             total_allocated += 1;
@@ -1100,7 +1186,8 @@ fn sequence(ctx: &mut Ctx, eng: &mut dyn Engine, rng: &mut Rng, bits: u32, init:
 // Structured 16-bit histories around the wrap point.  Random histories almost never have the values
 // next to the wrap point (max-1, max, 1, 2, ...) live at the moment the counter comes back to them,
 // so this generator builds that situation on purpose:
-//   A. holders (handles, objects with implicit TOI, objects with explicit TOI; some dropped again so
+//   A. holders (handles, objects with implicit TOI - also carousel objects that survive their transfers -,
+//      objects with explicit TOI; some dropped again so
 //      that runs of consecutive live values and gaps exist) are placed on the values just below and
 //      just above the wrap point - either directly (start value = max-j) or by allocating at 1.. first
 //      and churning up to max-j;
@@ -1114,6 +1201,8 @@ fn sequence(ctx: &mut Ctx, eng: &mut dyn Engine, rng: &mut Rng, bits: u32, init:
 struct Zone {
     handles: Vec<u64>,
     objs: Vec<u64>,
+    carousel: Vec<u64>,
+    cur_removed: bool,
     cur: Option<u64>,
     next_name: u64,
     last: u64, // last value returned (16 bit)
@@ -1174,8 +1263,12 @@ impl Zone {
                     self.step(ctx, eng, &format!("toi addfail {}", k));
                     return;
                 }
-                let obs = self.step(ctx, eng, &format!("toi add {}", k));
+                let car = keep && rng.chance(1, 3);
+                let obs = self.step(ctx, eng, &format!("toi {} {}", if car { "addc" } else { "add" }, k));
                 if obs.starts_with("toi ") {
+                    if car {
+                        self.carousel.push(k);
+                    }
                     if keep {
                         self.objs.push(k);
                     } else {
@@ -1216,8 +1309,10 @@ impl Zone {
                 // transfer it; sometimes remove it while it is in transfer; complete now or a few steps later
                 self.step(ctx, eng, &format!("toi start {}", k));
                 self.cur = Some(k);
+                self.cur_removed = false;
                 if rng.chance(1, 3) {
                     self.step(ctx, eng, &format!("toi remove {}", k));
+                    self.cur_removed = true;
                 }
                 if rng.bool() {
                     self.drain(ctx, eng);
@@ -1230,7 +1325,10 @@ impl Zone {
     }
     fn drain(&mut self, ctx: &mut Ctx, eng: &mut dyn Engine) {
         if let Some(k) = self.cur.take() {
-            self.objs.retain(|x| *x != k);
+            // a carousel object that was not removed during its transfer stays live (and can go again)
+            if !(self.carousel.contains(&k) && !self.cur_removed) {
+                self.objs.retain(|x| *x != k);
+            }
             self.step(ctx, eng, "toi drain");
         }
     }
@@ -1245,7 +1343,7 @@ fn wrapzone(ctx: &mut Ctx, eng: &mut dyn Engine, rng: &mut Rng, id: &str) {
     let low_first = rng.chance(1, 3);
     let start: u64 = if low_first { *rng.pick(&[1u64, 0, 2, 65536, 3]) } else { MAX - j };
     let tsi = *rng.pick(&[1u64, 65536]);
-    let mut z = Zone { handles: vec![], objs: vec![], cur: None, next_name: 0, last: 0, dead: false };
+    let mut z = Zone { handles: vec![], objs: vec![], carousel: vec![], cur_removed: false, cur: None, next_name: 0, last: 0, dead: false };
     if z.step(ctx, eng, &format!("toi new 16 {} {}", start, tsi)) != "ok" {
         return;
     }
@@ -1349,7 +1447,8 @@ fn wire_cases(ctx: &mut Ctx, eng: &mut dyn Engine, rng: &mut Rng, n: usize) {
 
 pub fn run(ctx: &mut Ctx, eng: &mut dyn Engine) {
     ctx.rule = "histories of allocate_toi / drop (same thread, other thread, concurrent) / add_object with and without \
-                explicit TOI (accepted and refused) / remove_object / transfer start / transfer completion / freerun (n objects multiplexed to completion) / churn \
+                explicit TOI (accepted and refused) / add_object with a handle of ANOTHER sender (value live here, next candidate here, random) / \
+                add_object on a missing priority queue / remove_object / transfer start / transfer completion / freerun (n objects multiplexed to completion) / churn \
                 (allocate+drop n times; for 16 bit once around the circle so that released values come back and live ones are skipped) of up to 300 operations on a real Sender, \
                 x 6 TOI widths x start values {1, 0, max-1, max, max+1, 2*max+1, u128::MAX, None (random) x2, random in range, \
                 random 128 bit}; plus structured 16-bit wrap-zone histories (holders of all kinds on max-j..max, 1, 2, .. with gaps or dense, \
